@@ -19,21 +19,23 @@ Definition f32_max_sse2 := @pipeline_sse2_max F32.t F32.le F32.ninf.
 Definition f32_dispatch_argmax := @dispatch_argmax_f32 F32.t F32.le F32.lt F32.ninf.
 Definition f32_dispatch_max := @dispatch_max_f32 F32.t F32.le F32.max_x86 F32.max.
 Definition f32_dispatch_threshold := @dispatch_threshold F32.t F32.le.
-Definition f32_ss_argmax := @ss_argmax F32.t.
-Definition f32_ss_threshold := @ss_threshold F32.t F32.le.
+Definition f32_ss_argmax := @ss_argmaxN F32.t.
+Definition f32_ss_threshold := @ss_thresholdN F32.t F32.le.
 Definition f32_unstripe := @unstripe F32.t.
 Definition f32_lin_argmax := @lin_argmax F32.t F32.le.
 Definition f32_lin_max := @lin_max F32.t F32.le.
-Definition f32_lin_threshold := @lin_threshold F32.t F32.le.
+Definition f32_lin_threshold := @lin_thresholdN F32.t F32.le.
 Definition f32_check_max := @check_max F32.t F32.le.
 Definition f32_check_argmax := @check_argmax F32.t F32.le.
 Definition f32_check_threshold := @check_threshold F32.t F32.le.
+Definition f32_check_C07 := @check_C07 F32.t F32.le.
 Definition f32_index_usize := @index_usize F32.t.
 Definition f32_get := @get F32.t.
 (* DNA: wildcard N has index 4; an out-of-range symbol index would read NaN *)
 Definition f32_score_def := @score_def F32.t F32.add F32.zero 4 F32.nan.
 Definition f32_terms_ok := @terms_ok F32.t F32.add F32.zero 4 F32.nan f32_okv.
 Definition f32_check_padding := @check_padding F32.t f32_is_ninf.
+Definition f32_check_padding_max := @check_padding_max F32.t F32.le f32_is_ninf F32.is_finite.
 Definition f32_ninf := F32.ninf.
 Definition f32_is_finite := F32.is_finite.
 
@@ -45,15 +47,16 @@ Definition u8_argmax_avx2 := argmax_u8_avx2.
 Definition u8_max_avx2 := max_u8_avx2.
 Definition u8_dispatch_argmax := dispatch_argmax_u8.
 Definition u8_dispatch_max := dispatch_max_u8.
-Definition u8_ss_argmax := @ss_argmax Z.
-Definition u8_ss_threshold := @ss_threshold Z Z.leb.
+Definition u8_ss_argmax := @ss_argmaxN Z.
+Definition u8_ss_threshold := @ss_thresholdN Z Z.leb.
 Definition u8_unstripe := @unstripe Z.
 Definition u8_lin_argmax := @lin_argmax Z Z.leb.
 Definition u8_lin_max := @lin_max Z Z.leb.
-Definition u8_lin_threshold := @lin_threshold Z Z.leb.
+Definition u8_lin_threshold := @lin_thresholdN Z Z.leb.
 Definition u8_check_max := @check_max Z Z.leb.
 Definition u8_check_argmax := @check_argmax Z Z.leb.
 Definition u8_check_threshold := @check_threshold Z Z.leb.
+Definition u8_check_C07 := @check_C07 Z Z.leb.
 Definition u8_index_usize := @index_usize Z.
 Definition u8_get := @get Z.
 
@@ -62,8 +65,8 @@ Extraction "maxi_model.ml"
   mk_f32 bits_f32 f32_is_nan f32_le f32_argmax_generic f32_max_generic f32_threshold
   f32_argmax_avx2 f32_max_avx2 f32_argmax_sse2 f32_max_sse2 f32_dispatch_argmax f32_dispatch_max
   f32_dispatch_threshold f32_ss_argmax f32_ss_threshold f32_unstripe f32_lin_argmax f32_lin_max
-  f32_lin_threshold f32_check_max f32_check_argmax f32_check_threshold f32_index_usize f32_get
-  f32_score_def f32_terms_ok f32_check_padding f32_okv f32_is_ninf f32_ninf f32_is_finite
+  f32_lin_threshold f32_check_max f32_check_argmax f32_check_threshold f32_check_C07 f32_index_usize f32_get
+  f32_score_def f32_terms_ok f32_check_padding f32_check_padding_max f32_okv f32_is_ninf f32_ninf f32_is_finite
   u8_argmax_generic u8_max_generic u8_threshold u8_argmax_avx2 u8_max_avx2 u8_dispatch_argmax
   u8_dispatch_max u8_ss_argmax u8_ss_threshold u8_unstripe u8_lin_argmax u8_lin_max u8_lin_threshold
-  u8_check_max u8_check_argmax u8_check_threshold u8_index_usize u8_get offset.
+  u8_check_max u8_check_argmax u8_check_threshold u8_check_C07 u8_index_usize u8_get offset.
